@@ -72,7 +72,7 @@ def sync_lock(crate_dir):
 BUILD_NOTES = []
 
 
-def build_native(profile="dev", features=None, toolchain=None, rustflags=None, target=None, build_std=False, tag="native"):
+def build_native(profile="dev", features=None, toolchain=None, rustflags=None, target=None, build_std=False, tag="native", libopt=False):
     """Build /verif/harness/native against /repo's current working tree.  Returns the executable."""
     crate = os.path.join(VERIF, "harness", "native")
     tdir = os.path.join(BUILD, tag)
@@ -82,6 +82,15 @@ def build_native(profile="dev", features=None, toolchain=None, rustflags=None, t
     cmd += ["build", "--offline", "--quiet"]
     if profile == "release":
         cmd.append("--release")
+    if libopt:
+        # the LIBRARY compiled the way a release build compiles it (optimised, debug assertions and overflow checks
+        # off, cfg(debug_assertions) false) under an unoptimised harness: optimising the harness itself lets the
+        # compiler inline or fold the very functions that are to be faked
+        for kv in ("opt-level=3", "debug-assertions=false", "overflow-checks=false"):
+            cmd += ["--config", "profile.dev.package.injectorpp." + kv]
+        if tag == "native":
+            tag = "native-librel"
+        tdir = os.path.join(BUILD, tag)
     if features:
         cmd += ["--features", features]
     if build_std:
@@ -248,6 +257,22 @@ def run_child_cases(exe, scenario, seed, tier, shard, nshards, extra=None, timeo
             notes.append("gave up after %d restarts" % restarts)
             break
     return cases, summaries, notes
+
+
+def also_librel(r, tier, in_quick, run):
+    """Runs the same sharded workload once more against the build in which the library is compiled release-like
+    (see build_native(libopt=True)); its cases are added under the engine name `native-librel`."""
+    if tier != "thorough" and not in_quick:
+        return
+    try:
+        exe = build_native(libopt=True)
+    except HarnessError as e:
+        r.add_case("native-librel", -11, "native-librel/build", "inconclusive", "release-like-library-build-failed", {"error": str(e)[-400:]})
+        return
+    cases, sums, notes = run(exe)
+    r.add_cases(cases, "native-librel")
+    r.notes += notes
+    r.observe("native-librel", sum_dicts(sums))
 
 
 def run_sharded(exe, scenario, seed, tier, nshards, extra=None, timeout=900, env=None, prefix=None, stall=None):
